@@ -41,4 +41,37 @@ CHECKS = {
                 'Option::expect/unwrap/?/Vec::pop.',
         'design_ref': 'DESIGN.md section 3, C05',
     },
+    'C02': {
+        'level': 'other',
+        'technique': 'cross-language table extraction (Python ast paths vs rustc MIR paths): opcode bytes, operand layout, slot/operand wiring, claim order, axioms',
+        'text': 'Decides the generator/checker protocol agreement that acceptance of every generated module depends on: each of the 24 '
+                'interpreter calls writes an opcode whose byte, operand layout and meaning (which stack slot / operand feeds which '
+                'constructor field or rule premise, side conditions of MP and Generalization, id/plug pairing of Instantiate) are the same '
+                'in the Serializing/Stateful/Basic interpreter chain and in the arm of execute_instructions; claims are consumed LIFO iff '
+                'published reversed; axiom schemas agree three-way; phases run in order over one interpreter. Necessary conditions only: '
+                'that a concrete module is accepted is an execution and is not decided.',
+        'note': 'Trusted: python ast, rustc MIR, spec/axioms.py. Symbols are identified with their serializer numbers (injectivity: C03).',
+        'design_ref': 'DESIGN.md section 3, C02',
+    },
+    'C04': {
+        'level': 'other',
+        'technique': 'effect-table extraction (StatefulInterpreter ast paths vs MIR opcode arms) and comparison; slice-guard and load-address rules',
+        'text': 'For every interpreter call the tracker effect (number and Term kind of pops, pushes, memory appends, claim consumption) '
+                'equals the effect of the opcode written for it, per phase for Publish; phase changes reset the same state on both sides; '
+                'memory grows at the same events; the Load operand is memory.index of the term handed to the tracker; -len(x) slices are '
+                'guarded. Four genuine deviations of publish_* are recorded as known findings (the pinned suite asserts them). '
+                'Equality of tracked and real state on concrete traces is not observed.',
+        'note': 'Trusted: python ast, rustc MIR. Known findings in known_findings.json (publish_* leave the term on the tracked stack; claims not queued).',
+        'design_ref': 'DESIGN.md section 3, C04',
+    },
+    'C14': {
+        'level': 'other',
+        'technique': 'writer/reader table extraction (serializer vs deserializer ast) and comparison',
+        'text': 'Writer/reader agreement: every opcode the serializer can write has a decoder branch with the same operand layout that '
+                'replays the call which writes that opcode, reading distinct stack slots at the positions the tracker binds; Publish is '
+                'replayed per phase; the decode loop ends only at end of input; unknown bytes raise. Five genuine gaps are recorded as '
+                'known findings. Equality of the replayed state on concrete modules is not observed.',
+        'note': 'Trusted: python ast. Known findings: no decoder branch for Quantifier/Generalization, constraint element types, Publish in gamma/proof phases.',
+        'design_ref': 'DESIGN.md section 3, C14',
+    },
 }
